@@ -1,1 +1,378 @@
-// placeholder
+// ======================================================================================
+// units/C08/paged.rs — lib/memory/paged.rs under contract: MemoryCell, Page, Memory (everything
+// except `load` and `store`, which are in paged_load.rs / paged_store.rs).
+// Specifications are in units/C08/paged_spec.rs.
+// ======================================================================================
+//@ source lib/memory/paged.rs
+//@ item const PAGE_SIZE
+//@ item const PAGE_MASK
+//@ item enum MemoryCell
+//@ item struct Page
+//@ item struct Memory
+
+/// "`==` on V decides equality of values" (trait law of Value, see lemma_eq_law)
+pub open spec fn value_eq_law<V: Value>() -> bool {
+    V::obeys_eq_spec() && forall|a: V, b: V| #[trigger] a.eq_spec(&b) == (a == b)
+}
+
+/// "`clone` on V yields an equal value" (trait law of Value, see lemma_clone_law)
+pub open spec fn value_clone_law<V: Value>() -> bool {
+    forall|a: V, b: V| #[trigger] cloned(a, b) ==> a == b
+}
+
+pub proof fn lemma_value_laws_hold<V: Value>()
+    ensures value_eq_law::<V>(), value_clone_law::<V>(),
+{
+    assert forall|a: V, b: V| #[trigger] a.eq_spec(&b) == (a == b) by { V::lemma_eq_law(a, b); }
+    assert forall|a: V, b: V| #[trigger] cloned(a, b) implies a == b by { V::lemma_clone_law(a, b); }
+    if exists|a: V| true {
+        let a = choose|a: V| true;
+        V::lemma_eq_law(a, a);
+    }
+}
+
+// derive(Clone) of Page<V> { cells: Vec<Option<MemoryCell<V>>>, permissions: Option<MemoryPermissions> }:
+// compiler-generated structural copy (Vec::clone clones every element; an element is None, a Backref
+// address, or a V cloned with V::clone); equal to the original whenever V::clone yields equal values.
+impl<V: Value> Clone for Page<V> {
+    #[verifier::external_body]
+    fn clone(&self) -> (r: Page<V>)
+        ensures value_clone_law::<V>() ==> r.cells@ == self.cells@ && r.permissions == self.permissions,
+    { unimplemented!() }
+}
+
+// derive(PartialEq) of Page<V>: compiler-generated structural equality (`cells == cells &&
+// permissions == permissions`; Vec equality is length + element-wise equality, an element compares
+// with V's `==` at the leaves); equality of the two views whenever V's `==` decides equality.
+impl<V: Value> vstd::std_specs::cmp::PartialEqSpecImpl for Page<V> {
+    open spec fn obeys_eq_spec() -> bool { value_eq_law::<V>() }
+    open spec fn eq_spec(&self, other: &Page<V>) -> bool { self.cells@ == other.cells@ && self.permissions == other.permissions }
+}
+impl<V: Value> PartialEq for Page<V> {
+    #[verifier::external_body]
+    fn eq(&self, other: &Page<V>) -> (r: bool)
+        ensures value_eq_law::<V>() ==> r == (self.cells@ == other.cells@ && self.permissions == other.permissions),
+    { unimplemented!() }
+}
+
+// derive(Clone) of Memory<V> { backing: Option<RC<backing::Memory>>, endian, pages: HashMap<u64, RC<Page<V>>> }:
+// compiler-generated structural copy.  `Rc::clone` yields a handle to the SAME allocation (equal value),
+// HashMap::clone copies every (key, handle) pair, Endian is a field-less enum.
+impl<V: Value> Clone for Memory<V> {
+    #[verifier::external_body]
+    fn clone(&self) -> (r: Memory<V>)
+        ensures r.backing == self.backing, r.endian == self.endian, r.pages@ == self.pages@,
+    { unimplemented!() }
+}
+
+impl<V> MemoryCell<V>
+where
+    V: Value,
+{
+//@ fn impl<V> MemoryCell<V> :: fn value
+//@ spec
+    ensures
+        /*@value*/ *self is Value ==> r == Some(&self->Value_0),
+        /*@backref*/ *self is Backref ==> r is None,
+//@ end
+}
+
+impl<V> Page<V>
+where
+    V: Value,
+{
+//@ fn impl<V> Page<V> :: fn new
+//@ rewrite 1 `for _ in` => `for _ in it0:` ## R-ghost-iter-name: names the ghost iterator of the for loop so that the invariant can mention it; no executable change
+//@ spec
+    ensures
+        /*@len*/ r.cells@.len() == size,
+        /*@empty*/ forall|i: int| 0 <= i < size ==> (#[trigger] r.cells@[i]) is None,
+        /*@no_perm*/ r.permissions is None,
+//@ loop 0
+    invariant
+        /*@len*/ v@.len() == it0.index@,
+        /*@empty*/ forall|i: int| 0 <= i < v@.len() ==> (#[trigger] v@[i]) is None,
+//@ end
+
+//@ fn impl<V> Page<V> :: fn store
+//@ spec
+    requires offset < old(self).cells@.len(),
+    ensures
+        /*@cells*/ final(self).cells@ == old(self).cells@.update(offset as int, Some(cell)),
+        /*@perm*/ final(self).permissions == old(self).permissions,
+//@ end
+
+//@ fn impl<V> Page<V> :: fn load
+//@ spec
+    requires offset < self.cells@.len(),
+    ensures
+        /*@some*/ self.cells@[offset as int] is Some ==> r == Some(&self.cells@[offset as int]->Some_0),
+        /*@none*/ self.cells@[offset as int] is None ==> r is None,
+//@ end
+
+//@ fn impl<V> Page<V> :: fn permissions
+//@ spec
+    ensures
+        /*@some*/ self.permissions is Some ==> r == Some(&self.permissions->Some_0),
+        /*@none*/ self.permissions is None ==> r is None,
+//@ end
+
+//@ fn impl<V> Page<V> :: fn set_permissions
+//@ spec
+    ensures
+        /*@perm*/ final(self).permissions == permissions,
+        /*@cells*/ final(self).cells == old(self).cells,
+//@ end
+
+//@ fn impl<V> Page<V> :: fn cells
+//@ spec
+    ensures /*@same*/ r@ == self.cells@,
+//@ end
+}
+
+// ---- specification vocabulary of Memory<V> ----------------------------------------------------------
+impl<V: Value> Memory<V> {
+    /// the cell map
+    pub open spec fn cells(&self) -> Cells<V> { cells_of(self.pages@) }
+
+    /// the backing's section map, if there is a backing
+    pub open spec fn bk(&self) -> Option<SecMap> {
+        match self.backing { Some(b) => Some(b.sections@), None => None }
+    }
+
+    /// the backing satisfies unit C16's data invariant
+    pub open spec fn bk_wf(&self) -> bool { self.backing matches Some(b) ==> b.wf() }
+
+    /// representation invariant of paged::Memory
+    pub open spec fn wf(&self) -> bool {
+        pages_wf(self.pages@) && cells_wf(self.cells()) && self.bk_wf()
+    }
+
+    /// what `load(address, 8 * n)` needs: the invariant, with coverage only on the range read
+    pub open spec fn pre_load(&self, address: u64, n: nat) -> bool {
+        pages_wf(self.pages@) && cells_base(self.cells()) && cells_cov_on(self.cells(), address as int, address + n) && self.bk_wf()
+    }
+
+    /// the byte this memory itself holds at x
+    pub open spec fn own(&self, x: u64) -> Option<u8> { own_at(self.endian, self.cells(), x) }
+
+    /// the layered content at x: own byte, else the backing's
+    pub open spec fn full(&self, x: int) -> Option<u8> { full_at(self.endian, self.cells(), self.bk(), x) }
+
+    /// the permissions reported for x: the page's if it has some, else the backing's
+    pub open spec fn perm(&self, x: u64) -> Option<MemoryPermissions> {
+        match page_perm(self.pages@, page_base(x)) { Some(p) => Some(p), None => bk_perm(self.bk(), x as int) }
+    }
+}
+
+impl<V> Memory<V>
+where
+    V: Value,
+{
+//@ fn impl<V> Memory<V> :: fn new
+//@ spec
+    ensures
+        /*@wf*/ r.wf(),
+        /*@endian*/ r.endian == endian,
+        /*@no_backing*/ r.backing is None,
+        /*@empty*/ forall|x: int| (#[trigger] r.full(x)) is None,
+        /*@no_perm*/ forall|x: u64| (#[trigger] r.perm(x)) is None,
+//@ before 0 `Memory {`
+    proof { reveal(cells_of); }
+//@ end
+
+//@ fn impl<V> Memory<V> :: fn endian
+//@ spec
+    ensures /*@same*/ r == self.endian,
+//@ end
+
+//@ fn impl<V> Memory<V> :: fn new_with_backing
+//@ spec
+    requires backing.wf(),
+    ensures
+        /*@wf*/ r.wf(),
+        /*@endian*/ r.endian == endian,
+        /*@backing*/ r.backing == Some(backing),
+        /*@backed*/ forall|x: int| #[trigger] r.full(x) == bk_at(Some(backing.sections@), x),
+        /*@perm*/ forall|x: u64| #[trigger] r.perm(x) == bk_perm(Some(backing.sections@), x as int),
+//@ before 0 `Memory {`
+    proof {
+        reveal(cells_of);
+        assert forall|x: int| !(0 <= x <= u64::MAX) implies bk_at(Some(backing.sections@), x) is None by {
+            crate::memory::backing::lemma_vw_range(backing.sections@, x);
+        }
+    }
+//@ end
+
+//@ fn impl<V> Memory<V> :: fn permissions
+//@ closure 0 |page: &RC<Page<V>>| -> (r0: Option<MemoryPermissions>)
+    ensures r0 == page.permissions,
+//@ closure 1 || -> (r1: Option<MemoryPermissions>)
+    requires self.bk_wf(),
+    ensures r1 == bk_perm(self.bk(), address as int),
+//@ closure 2 |backing: RC<backing::Memory>| -> (r2: Option<MemoryPermissions>)
+    requires backing.wf(),
+    ensures r2 == bk_perm(Some(backing.sections@), address as int),
+//@ spec
+    requires self.wf(),
+    ensures /*@read*/ r == self.perm(address),
+//@ enter
+    proof { lemma_page_bits(address); }
+//@ end
+
+//@ fn impl<V> Memory<V> :: fn set_permissions
+//@ rewrite 1 `RC::make_mut(` => `rc_cow::rc_make_mut(` ## R-std-standin: Rc::make_mut replaced by the stand-in of prelude/rc_cow.rs (same argument; the stand-in's body calls the real `Rc::make_mut`)
+//@ rewrite 1 `self.pages .entry(page_address) .or_insert_with(` => `rc_cow::entry_or_insert_with(&mut self.pages, page_address, ` ## R-std-standin: `MAP.entry(K).or_insert_with(F)` replaced by the stand-in of prelude/rc_cow.rs (same map, key and closure; the stand-in's body calls the real `entry` / `or_insert_with`)
+//@ closure 0 || -> (r0: RC<Page<V>>)
+    ensures r0.cells@.len() == 1024, forall|i: int| 0 <= i < 1024 ==> (#[trigger] r0.cells@[i]) is None, r0.permissions is None,
+//@ spec
+    requires
+        old(self).wf(),
+        address + len <= u64::MAX - 1023,   // finding (iv): the range must end before the last page (address arithmetic would wrap)
+    ensures
+        /*@wf*/ final(self).wf(),
+        /*@frame*/ final(self).endian == old(self).endian && final(self).backing == old(self).backing && final(self).cells() == old(self).cells(),
+        /*@set*/ forall|x: u64| address <= x < address + len ==> #[trigger] final(self).perm(x) == Some(permissions),
+        /*@view*/ forall|x: u64| #[trigger] final(self).perm(x) == (
+            if page_base(address) <= x && page_base(x) < address + len { Some(permissions) } else { old(self).perm(x) }),
+//@ enter
+    proof { lemma_page_bits(address); lemma_value_laws_hold::<V>(); }
+//@ loop 0
+    invariant
+        /*@ctx*/ address + len <= u64::MAX - 1023 && page_address % 1024 == 0 && page_base(address) <= page_address && page_address <= address + len + 1023,
+        /*@wf*/ self.wf(),
+        /*@frame*/ self.endian == old(self).endian && self.backing == old(self).backing && self.cells() == old(self).cells(),
+        /*@done*/ forall|k: u64| #[trigger] page_perm(self.pages@, k) == (
+            if k % 1024 == 0 && page_base(address) <= k < page_address { Some(permissions) } else { page_perm(old(self).pages@, k) }),
+    decreases address + len + 1024 - page_address,
+//@ before 0 `rc_cow::rc_make_mut(`
+    let ghost pages0 = self.pages@;
+//@ before 0 `page_address += PAGE_SIZE as u64;`
+    proof {
+        let p1 = self.pages@[page_address];
+        assert(self.pages@ =~= pages0.insert(page_address, p1));
+        lemma_cells_same_page(pages0, page_address, p1);
+    }
+//@ end
+
+//@ fn impl<V> Memory<V> :: fn backing
+//@ spec
+    ensures /*@same*/ r == self.backing,
+//@ end
+
+//@ fn impl<V> Memory<V> :: fn set_backing
+//@ spec
+    ensures
+        /*@backing*/ final(self).backing == backing,
+        /*@frame*/ final(self).endian == old(self).endian && final(self).pages == old(self).pages,
+//@ end
+
+//@ fn impl<V> Memory<V> :: fn pages
+//@ spec
+    ensures /*@same*/ *r == self.pages,
+//@ end
+
+//@ fn impl<V> Memory<V> :: fn store_cell
+//@ rewrite 1 `RC::make_mut(` => `rc_cow::rc_make_mut(` ## R-std-standin: Rc::make_mut replaced by the stand-in of prelude/rc_cow.rs (same argument; the stand-in's body calls the real `Rc::make_mut`)
+//@ spec
+    requires pages_wf(old(self).pages@),
+    ensures
+        /*@pages*/ pages_wf(final(self).pages@),
+        /*@cells*/ final(self).cells() == old(self).cells().insert(address, cell),
+        /*@frame*/ final(self).endian == old(self).endian && final(self).backing == old(self).backing,
+        /*@perm*/ forall|k: u64| #[trigger] page_perm(final(self).pages@, k) == page_perm(old(self).pages@, k),
+//@ enter
+    proof { lemma_page_bits(address); lemma_value_laws_hold::<V>(); }
+//@ before 0 `return;`
+    proof {
+        let p1 = self.pages@[page_address];
+        assert(self.pages@ =~= old(self).pages@.insert(page_address, p1));
+        lemma_cells_store(old(self).pages@, address, cell, p1);
+    }
+//@ after 0 `self.pages.insert(page_address, RC::new(page));`
+    proof {
+        let p1 = self.pages@[page_address];
+        lemma_cells_store_new(old(self).pages@, address, cell, p1);
+    }
+//@ end
+
+//@ fn impl<V> Memory<V> :: fn load_cell
+//@ spec
+    requires pages_wf(self.pages@),
+    ensures
+        /*@some*/ self.cells().contains_key(address) ==> r == Some(&self.cells()[address]),
+        /*@none*/ !self.cells().contains_key(address) ==> r is None,
+//@ enter
+    proof { lemma_page_bits(address); reveal(cells_of); }
+//@ end
+
+//@ fn impl<V> Memory<V> :: fn load_backing
+//@ closure 0 |backing: RC<backing::Memory>| -> (r0: Option<V>)
+    requires backing.wf(),
+    ensures
+        bk_at(Some(backing.sections@), address as int) is None ==> r0 is None,
+        bk_at(Some(backing.sections@), address as int) matches Some(b) ==> (r0 matches Some(v) && val_ok(v) && v.vbits() == 8 && v.le_bytes() == seq![b]),
+//@ closure 1 |v: u8| -> (r1: V)
+    ensures val_ok(r1) && r1.vbits() == 8 && r1.le_bytes() == seq![v],
+//@ spec
+    requires self.bk_wf(),
+    ensures
+        /*@none*/ bk_at(self.bk(), address as int) is None ==> r is None,
+        /*@some*/ bk_at(self.bk(), address as int) matches Some(b) ==> (r matches Some(v) && val_ok(v) && v.vbits() == 8 && v.le_bytes() == seq![b]),
+//@ before 0 `V::constant(`
+    proof { lemma_nat_byte_small(v); }
+//@ end
+
+//@ fn impl<V> Memory<V> :: fn store_no_backref
+//@ spec
+    requires
+        pages_wf(old(self).pages@),
+        val_ok(value),
+        address + vlen(value) <= u64::MAX,
+    ensures
+        /*@pages*/ pages_wf(final(self).pages@),
+        /*@cells*/ final(self).cells() == write_cells(old(self).cells(), address, value, vlen(value)),
+        /*@frame*/ final(self).endian == old(self).endian && final(self).backing == old(self).backing,
+        /*@perm*/ forall|k: u64| #[trigger] page_perm(final(self).pages@, k) == page_perm(old(self).pages@, k),
+//@ after 0 `self.store_cell(address, MemoryCell::Value(value));`
+    proof { assert(self.cells() =~= write_cells(old(self).cells(), address, value, 1)); }
+//@ loop 0
+    invariant
+        /*@ctx*/ bytes as nat == vlen(value) && address + vlen(value) <= u64::MAX && 1 <= bytes,
+        /*@pages*/ pages_wf(self.pages@),
+        /*@cells*/ self.cells() == write_cells(old(self).cells(), address, value, i as nat),
+        /*@frame*/ self.endian == old(self).endian && self.backing == old(self).backing,
+        /*@perm*/ forall|k: u64| #[trigger] page_perm(self.pages@, k) == page_perm(old(self).pages@, k),
+//@ before 0 `self.store_cell(address + i as u64, MemoryCell::Backref(address));`
+    let ghost c_before = self.cells();
+//@ after 0 `self.store_cell(address + i as u64, MemoryCell::Backref(address));`
+    proof { assert(self.cells() =~= write_cells(old(self).cells(), address, value, (i + 1) as nat)); }
+//@ end
+}
+
+impl<V: Value> vstd::std_specs::cmp::PartialEqSpecImpl for Memory<V> {
+    open spec fn obeys_eq_spec() -> bool { false }
+    open spec fn eq_spec(&self, other: &Memory<V>) -> bool { mem_eq(*self, *other) }
+}
+
+impl<V: Value> PartialEq for Memory<V> {
+//@ fn impl<V: Value> PartialEq for Memory<V> :: fn eq nopub
+//@ closure 0 |self_backing: RC<backing::Memory>| -> (r0: Option<bool>)
+    ensures r0 == (match other.backing { Some(ob) => Some(backing::backing_eq(*self_backing, *ob)), None => None::<bool> }),
+//@ closure 1 |other_backing: RC<backing::Memory>| -> (r1: bool)
+    ensures r1 == backing::backing_eq(*self_backing, *other_backing),
+//@ spec
+    ensures
+        /*@exact*/ r == mem_eq(*self, *other),
+        /*@reflexive*/ (self.pages@ == other.pages@ && self.endian == other.endian && self.backing == other.backing) ==> r,
+        /*@same_view*/ r && other.bk_wf() ==> self.endian == other.endian
+            && (forall|x: int| #[trigger] self.full(x) == other.full(x))
+            && (forall|x: u64| (#[trigger] self.perm(x)) == other.perm(x)),
+//@ enter
+    proof {
+        broadcast use {rc_cow::axiom_rc_obeys_eq, rc_cow::axiom_rc_eq, rc_cow::axiom_hashmap_obeys_eq, rc_cow::axiom_hashmap_eq};
+        lemma_value_laws_hold::<V>();
+        lemma_mem_eq(*self, *other);
+    }
+//@ end
+}
